@@ -50,6 +50,13 @@ impl<T: Send + Sync + 'static> CobwebCommandQueue<T>
         self.buffers.push(new);
     }
 
+    /// Number of queued commands.
+    #[cfg(feature = "verif")]
+    pub(crate) fn verif_len(&self) -> usize
+    {
+        self.commands.len()
+    }
+
     /// Pushes a list of cobweb commands to the end of the command queue then returns the inner queue.
     pub(crate) fn _append_and_remove(&mut self, mut new: VecDeque<T>) -> VecDeque<T>
     {
